@@ -180,7 +180,19 @@ SDisjAlias ==
       c \in {Bn(">", Own("n"), Fld(VarR("@A"), "n")), Bn("=", Own("s"), Fld(VarR("@A"), "s")), Bn(">", Own("n"), Fld(VarR("@A"), "q")),
              Bn(">", Idx(Fld(VarR("@A"), "fx"), NumA("2")), NumA("0"))}}
   \cup {Prop(Scope("after", Dj(<<Ev("w", "", NoPred), Ev("t", "A", NoPred)>>), NoPred), Pat1("no", Ev("u", "", Pr(Bn(">", Own("n"), Fld(VarR("@A"), "n"))))))}
-SchemaShapes == SDisjAlias \cup
+\* a quantified variable with the name of an alias (legal shadowing): the alias must be usable again after the quantifier,
+\* in the same predicate and in events checked later, and faults in those later references must still be found
+SShadowQ == Qn("forall", "j", Own("ms"), Bn(">", Fld(VarR("@j"), "n"), NumA("0")))
+SShadow ==
+  {Prop(Scope("after", Ev("w", "j", NoPred), NoPred), Pat1("no", Ev("u", "", Pr(c)))) :
+      c \in {Bn("and", SShadowQ, Bn(">", Fld(VarR("@j"), r), NumA("0"))) : r \in {"q", "nope", "n"}}
+           \cup {Bn("and", Bn(">", Fld(VarR("@j"), r), NumA("0")), SShadowQ) : r \in {"q", "nope"}}
+           \cup {Bn("and", SShadowQ, Bn("and", Qn("exists", "j", Own("mf"), Bn("=", Fld(VarR("@j"), "t"), Own("s"))), Bn(">", Fld(VarR("@j"), r), Own("n")))) : r \in {"q", "n"}}}
+  \cup {Prop(Scope("after_until", Ev("w", "j", Pr(Bn(">", Own("q"), NumA("0")))), Ev("u", "", Pr(Bn(">", Own("k"), Fld(VarR("@j"), r))))),
+              Pat1("some", Ev("t", "", Pr(SShadowQ)))) : r \in {"q", "nope", "n"}}
+  \cup {Prop(Scope("after", Ev("w", "j", NoPred), NoPred), Pat2(t, Ev("t", "", Pr(SShadowQ)), Ev("u", "", Pr(Bn(">", Own("k"), Fld(VarR("@j"), r)))))) :
+              t \in {"causes", "requires"}, r \in {"q", "nope"}}
+SchemaShapes == SDisjAlias \cup SShadow \cup
   {Prop(Scope("after", Ev("t", "A", NoPred), NoPred), Pat1("no", Ev("u", "", Pr(c)))) : c \in SBound} \cup
   {Prop(Scope("after", Ev("t", "A", NoPred), NoPred), Pat1("no", Ev("u", "", Pr(c)))) : c \in SPreds \cup SRepeat}
   \cup {Prop(Scope("globally", NoPred, NoPred), Pat2("causes", Ev("t", "A", Pr(Bn(">", Own("n"), NumA("0")))), Ev("w", "", Pr(c)))) : c \in UNION {SCtx(r) : r \in {Own("n"), Own("q"), Fld(VarR("@A"), "n"), Fld(VarR("@A"), "q")}}}
